@@ -83,6 +83,17 @@ def execute_case(prop, sub, case, report, counting=True):
     # from the default state, and a check that wants to see such a leak exercises the history inside one case
     import numpy as _np
     _np.seterr(divide="warn", over="warn", under="ignore", invalid="warn")
+    # the command line tools run the library with the evo logger at DEBUG (log.configure_logging), plain library use leaves it
+    # at WARNING: both states are exercised, chosen by the case itself (so that a replay sees the same state)
+    import logging as _logging
+    import zlib as _zlib
+    from vf.core import canon as _canon
+    _lg = _logging.getLogger("evo")
+    _lg.propagate = False
+    try:
+        _lg.setLevel(_logging.DEBUG if (_zlib.crc32(_canon(case).encode("utf-8")) & 1) else _logging.WARNING)
+    except Exception:  # noqa
+        _lg.setLevel(_logging.WARNING)
     try:
         label = sub.fn(case)
     except Skip as s:
